@@ -29,6 +29,8 @@ LIFE = {
     "C11": dict(models=["base_conf", "restart"], tmodels=["t_restart3", "base_exp"], fams=["base", "amtless"], crashes=(0, 1), wf=0, rf=0),
     "C12": dict(models=["base_tot", "base_exp"], tmodels=["base_conf"], fams=["base", "amtless"], crashes=(0,), wf=0, rf=0),
     "C13": dict(models=["base_foreign"], tmodels=["twohash"], fams=["other", "twohash"], crashes=(0,), wf=0, rf=0),
+    "C15": dict(models=["provider"], tmodels=[], fams=["base"], crashes=(0,), wf=0, rf=0, direct=3, allrate=1),
+    "C16": dict(models=["provider"], tmodels=[], fams=["base"], crashes=(0,), wf=0, rf=0, direct=3, allrate=1),
     "C14": dict(models=["twohash"], tmodels=["t_twohash2"], fams=["twohash"], crashes=(0,), wf=0, rf=0, freeze=True),
 }
 
@@ -41,7 +43,7 @@ def tlc_design(name, props, workdir, timeout, workers=12, emit_rate=None, seed=1
     models.consts_of(name)
     cfgp = f"{workdir}/MC_{name}_{'emit' if emit_rate else 'check'}.cfg"
     os.makedirs(workdir, exist_ok=True)
-    open(cfgp, "w").write(models.emit_cfg(m, emit_rate) if emit_rate else models.check_cfg(m, props))
+    open(cfgp, "w").write(models.emit_cfg(m, emit_rate) if emit_rate else models.check_cfg(m, m["props"] or props))
     meta = f"{workdir}/meta_{name}_{'e' if emit_rate else 'c'}"
     env = dict(os.environ, JAVA_TOOL_OPTIONS="-DTLA-Library=/verif/spec")
     cmd = ["timeout", str(timeout), "tlc", "-workers", str(workers), "-seed", str(seed), "-metadir", meta, "-cleanup",
@@ -71,7 +73,9 @@ def ev_to_step(ev):
     if t == "deliver":
         return {"a": "deliver", "sel": sel(ev["c"]), "who": ev["who"]}
     if t == "paypart":
-        return {"a": "paypart", "sel": {"kind": "pay", "hash": ev["hash"]}}
+        return {"a": "paypart", "sel": {"kind": "pay", "hash": ev["hash"]}, "orphan_ok": True}
+    if t == "call":
+        return {"a": "wp", "hash": ev["hash"]} if ev["fn"] == "wp" else {"a": "paycall", "hash": ev["hash"], "inv": 1}
     if t == "partdone":
         return {"a": "partdone", "p": ev["p"], "how": ev["how"], "code": ev["code"] or 203}
     if t == "payreturn":
@@ -119,8 +123,8 @@ def build_jobs(pid, tier, seed, workdir):
                      "t_restart3": 6000000, "t_overlap2": 8000000, "t_faults2": 2000000, "t_twohash2": 8000000}.get(name, 300000)
         if thorough and name.startswith("t_"):
             continue  # the big instances are checked, not mined (simulation covers their depth)
-        rate = max(1, est_edges // per_model)
-        scheds = schedules_from_tlc(name, workdir, rate, seed, 900, per_model * 2)
+        rate = spec.get("allrate") or max(1, est_edges // per_model)
+        scheds = schedules_from_tlc(name, workdir, rate, seed, 900, 100000 if spec.get("allrate") else per_model * 2)
         sched_stats[name] = len(scheds)
         sc = models.scenario(name)
         for s in scheds:
@@ -131,6 +135,6 @@ def build_jobs(pid, tier, seed, workdir):
     rf = spec.get("trf", spec["rf"]) if thorough else spec["rf"]
     rj = scen.rand_jobs(seed, n, spec["fams"], crashes=spec["crashes"], wfaults=spec["wf"], rfaults=rf,
                         probes=spec.get("probes", 0), heights=spec.get("heights", False), freeze=spec.get("freeze", False),
-                        start_run=runno)
+                        start_run=runno, direct=spec.get("direct", 0), policies=spec.get("policies", True))
     jobs += rj
     return jobs, sched_stats
